@@ -70,14 +70,15 @@ ASSUMPTIONS = [
 TESTED_NOT_PROVED = [
     "isomorphic centres under atom-map renumbering of a reaction STRING (through rsmi_to_its; multi-digit maps, %1d ring closures): oracle on every "
     "renumbered corpus case; the graph-level statement is theorem C02_rc_equivariant",
-    "idempotence of get_rc under options when element_key drops element or typesGH (proved only when both are kept: C02_rcx_idem; a witness shows it "
-    "fails without element; the centre of the centre is compared with the model on every option case)",
-    "longest_radius_extension: no theorem about the path itself (model with fuel compared on every 'lre' case; oracle: simple path of unchanged bonds "
-    "from a centre atom, at least as long as the longest such path from the first centre atom); C02_extract_k_minus1 relates the context to its length",
+    "idempotence of get_rc under options is proved when element_key keeps element and typesGH (C02_rcx_idem) and refuted by witnesses when either is "
+    "dropped; the centre of the centre is compared with the model on every option case",
+    "longest_radius_extension: proved to return a simple path of unchanged bonds from a centre atom (C02_lre_path); that it is a LONGEST such path is "
+    "only tested (model with fuel compared on every 'lre' case; oracle: at least as long as the longest such path from the first centre atom); "
+    "C02_extract_k_minus1 relates the context to its length",
     "get_rc / the RadiusExpand helpers do not mutate their input; context_extraction copies the dict (oracle on every option / helper / list case)",
     "isinstance(order, tuple) in find_unequal_order_edges: ITS graphs whose order is a list are outside the model (the library never builds them)",
 ]
-LEVEL_TEXT = ("Machine-checked proof (Coq, 28 theorems, all closed under the global context) over an executable model of get_rc and RadiusExpand: on every "
+LEVEL_TEXT = ("Machine-checked proof (Coq, 30 theorems, all closed under the global context) over an executable model of get_rc and RadiusExpand: on every "
               "well-formed ITS graph whose standard_order is the order difference the centre contains a bond iff its two orders differ or both atoms "
               "are hydrogens (for ignore_aromaticity ITS graphs: iff the orders differ by at least 1, with a witness that 'differs' alone fails), "
               "contains exactly the endpoints of these bonds with the ITS labels (element, charge, typesGH, atom_map), get_rc is idempotent and "
@@ -787,11 +788,10 @@ def gen_pairs(rng, tier):
     small = P1.gen_exhaustive_small(rng)
     ex1 = [c for c in small if c["kind"] == "exh1"]
     ex2 = [c for c in small if c["kind"] == "exh2"]
-    if tier == "quick":
-        ex2 = rng.sample(ex2, 600)
+    ex2 = rng.sample(ex2, 600 if tier == "quick" else 6000)
     for c in ex1 + ex2:
         cases.append(dict(kind="pair-" + c["kind"], G=c["G"], H=c["H"]))
-    for c in P1.gen_random(rng, 300 if tier == "quick" else 6000, maxn=10):
+    for c in P1.gen_random(rng, 300 if tier == "quick" else 4000, maxn=10):
         cases.append(dict(kind="pair-rand", G=c["G"], H=c["H"]))
     for c in P1.gen_malformed(rng, 150 if tier == "quick" else 1500):
         cases.append(dict(kind="pair-malformed", G=c["G"], H=c["H"]))
@@ -827,7 +827,7 @@ def gen_options(rng, tier):
         cases.append(dict(kind="x-exh", X=g, keys=list(X.DEFAULT_KEYS)))
         if len(g["nodes"]) == 2:
             cases.append(dict(kind="x-exh-keys", X=g, keys=list(rng.choice(X.KEY_CHOICES[1:]))))
-    for _ in range(500 if tier == "quick" else 6000):
+    for _ in range(500 if tier == "quick" else 4000):
         cases.append(dict(kind="x-rand", X=X.rand_x(rng, rng.randint(2, 9)), keys=list(rng.choice(X.KEY_CHOICES))))
     return cases
 
@@ -881,12 +881,12 @@ def gen_ia(rng, tier):
     """ITSGraph(G, H, ignore_aromaticity=True[, balance_its=True]) of synthetic pairs and corpus reactions"""
     q = tier == "quick"
     cases = []
-    for c in P1.gen_random(rng, 300 if q else 5000, maxn=8):
+    for c in P1.gen_random(rng, 300 if q else 3000, maxn=8):
         cases.append(dict(kind="pair-ia", G=c["G"], H=c["H"], ia=True, bal=rng.random() < 0.5))
     for c in P1.gen_malformed(rng, 100 if q else 1000):
         cases.append(dict(kind="pair-ia-malformed", G=c["G"], H=c["H"], ia=rng.random() < 0.7, bal=True))
     small = [c for c in P1.gen_exhaustive_small(rng) if c["kind"] == "exh2"]
-    for c in rng.sample(small, 200 if q else 4000):
+    for c in rng.sample(small, 200 if q else 2000):
         cases.append(dict(kind="pair-ia-exh2", G=c["G"], H=c["H"], ia=True, bal=rng.random() < 0.5))
     for c in P1.gen_random(rng, 150 if q else 1500, maxn=8):
         cases.append(dict(kind="help-pair-ia", G=c["G"], H=c["H"], ia=True, bal=False, helpers=HELPER_RADII))
@@ -915,8 +915,8 @@ def gen_cases(tier, rng):
     exh = gen_exhaustive_its()
     cases = list(exh)
     q = tier == "quick"
-    cases += gen_random_its(rng, 450 if q else 12000, "its-rand")
-    cases += gen_random_its(rng, 300 if q else 6000, "its-incons")
+    cases += gen_random_its(rng, 450 if q else 8000, "its-rand")
+    cases += gen_random_its(rng, 300 if q else 4000, "its-incons")
     cases += gen_random_its(rng, 200 if q else 2000, "its-toplevel")
     cases += gen_pairs(rng, tier)
     cases += gen_corpus(rng, 40 if q else None, 1 if q else 2)
